@@ -106,7 +106,7 @@ package scorch
 //@   props C12
 //@   mode int
 //@   trusted reference counting is not under contract
-//@   requires is != nil
+//@   requires i != nil
 //@ func IndexSnapshot.CloseCopyReader
 //@   props C12
 //@   mode int
